@@ -147,6 +147,12 @@ def ctx_r(chk, fx):
 def ctx_o(chk, fx):
     chk.rule("CTX-O", "contextual flag produced by the rule operators", 4)
     seen = set()
+    for tu, diag in fx.failed.items():
+        if tu.endswith("w_ctxflag.cpp"):
+            lines = [l.strip()[:200] for l in diag.splitlines() if "error" in l][:2]
+            chk.violation("CTX-O", "witness/w_ctxflag.cpp", "CTX-O:witness-does-not-compile",
+                          "(rule >>= f)[n] / rule[n] >>= f with a functor that requires the context no longer compiles: the "
+                          "contextual flag is lost by a rule operator: " + " | ".join(lines))
     want = {"operator>>=": "true", "operator>=": "false"}
     for name, flag in want.items():
         for f in fx.need("ctpg::detail::rule::" + name):
